@@ -38,11 +38,11 @@ _real_datetime_str = wpull.util.datetime_str
 P = 'C06'
 BUDGETS = {'C06': (45, 900, 10)}
 LEVELS = {'C06': 'fault_enumeration'}
-PROBES = {'C06': ['compressed', 'uncompressed', 'multi_write_append', 'error_at_journal', 'error_at_archive_open',
+PROBES = {'C06': ['first_record_of_file', 'compressed', 'uncompressed', 'multi_write_append', 'error_at_journal', 'error_at_archive_open',
                   'error_at_archive_write', 'error_at_archive_close', 'error_at_unlink', 'torn_error', 'short_write',
                   'kill_points', 'kill_torn_points', 'kill_with_journal', 'restart_refused', 'real_kill_crosscheck']}
 INFO = {'C06': {
-    'rule': 'workload = (compression, 1..5 earlier records, record to append with block of 0..40000 bytes); per workload '
+    'rule': 'workload = (compression, 0..5 earlier records, record to append with block of 0..40000 bytes); per workload '
             'EVERY file operation of the append is a fault position for the I/O-error clause and every operation '
             'boundary (+ torn prefixes of each raw write) for the kill clause; non-trivial iff the append performs >= 2 '
             'raw writes to the archive; distinct by workload digest. evaluations counts workloads; '
@@ -84,7 +84,7 @@ def run(tape, prop, tier):
     r = Result()
     rng = tape.subrng('rng')
     compress = tape.chance(1, 2, 'compress')
-    nprev = tape.between(1, 5, 'nprev')
+    nprev = tape.between(0, 5, 'nprev')        # 0: the append under test is the first record of its file
     szk = tape.draw(7, 'size.kind')
     size = (0, 1, 2 + tape.draw(300, 'size.s'), 4000 + tape.draw(5000, 'size.m'), 15000 + tape.draw(30000, 'size.l'),
             66000 + tape.draw(9000, 'size.xl'), 8192)[szk]
@@ -111,6 +111,12 @@ def run(tape, prop, tier):
             recorder.write_record(rec)
         arch_name = 'a.warc.gz' if compress else 'a.warc'
         arch = os.path.join(sandbox, arch_name)
+        if nprev == 0:
+            # the state in which the recorder writes the first record of a file (fresh archive, next --warc-max-size
+            # file, -meta file): the file exists and is empty
+            with open(arch, 'wb'):
+                pass
+            r.probes['first_record_of_file'] += 1
         journal_name = arch_name + '-wpullinc'
         pre = simfs.snapshot_dir(sandbox)
         A0 = pre[arch_name]
